@@ -347,6 +347,7 @@ def cli_deps(ctx):
     if fm_ is not None:
         c05.offset_rule(dep(ctx, "C03", "C05"), fm_)
         c14.size_rule(dep(ctx, "C03", "C14"), fm_)
+        c14.writer_rule(dep(ctx, "C03", "C14"), fm_)      # .. and is copied byte for byte (k = 6, 7: longer than a page)
     # "the header matches the columns" presupposes that the header line is there whenever it was asked for: written
     # once, under `self.header` alone, on every normally-ending path of both writers
     fb_ = ctx.view(c05.BATCH)
